@@ -117,11 +117,27 @@ impl Array {
         let (a, a_transpose) = a;
         let (b, b_transpose) = b;
 
-        let input_dimensions = if a.dimensions.len() >= b.dimensions.len() {
-            &a.dimensions
-        } else {
-            &b.dimensions
+        // broadcast the leading dimensions of both operands against each other
+        let input_dimensions = {
+            let (longer, other) = if a.dimensions.len() >= b.dimensions.len() {
+                (&a.dimensions, &b.dimensions)
+            } else {
+                (&b.dimensions, &a.dimensions)
+            };
+
+            let mut input_dimensions = longer.clone();
+            let leading_count = longer.len().saturating_sub(2);
+            for (l, o) in input_dimensions[..leading_count]
+                .iter_mut()
+                .rev()
+                .zip(other.iter().rev().skip(2))
+            {
+                *l = std::cmp::max(*l, *o);
+            }
+
+            input_dimensions
         };
+        let input_dimensions = &input_dimensions;
 
         // TODO OpenCL
         let output_rows = if a.dimensions.len() < 2 && (!a_transpose || b.dimensions.len() < 2) {
